@@ -37,14 +37,20 @@ CLAIM = dict(
     "with p_k = 0, lambda = 0 - the side conditions the code relies on), full_iff_pinned; dispatch theorems decided over the "
     "acceptance matrix re-tabulated from the running code on every run (every documented formulation constructs and completes a "
     "linear_solve with the direct back-end, 'pressure' with all three back-ends, no accepted spelling falls through the "
-    "branches); the hand-written CSC row/column removal is modelled array-operation by array-operation and proved equal to "
-    "filtering the kept positions (csc_surgery_arrays), its dense meaning is established per shape by an exhaustive "
-    "position-tag correspondence over all 186 C07-range shapes (thorough tier) together with the decidable pattern hypothesis "
-    "(csc_surgery_dense_partial is stated for the tabulated shapes). Public tie: every usable formulation x back-end solves "
+    "branches); the hand-written CSC row/column removal is modelled array-operation by array-operation (np.arange/where/unique/"
+    "delete, index shift, indptr loop, unique, assert); csc_surgery_dense_partial proves, for arbitrary data, that its output "
+    "represents the matrix with rows/columns {k, last} dropped whenever the sparsity pattern passes the decidable certificate "
+    "surgeryCheck, and cached_pattern_reuse proves that the data-only refresh of later calls is the surgery of the new matrix; the "
+    "certificate (and the structural hypothesis patternOk of the unproved general statement) is evaluated by the model on the "
+    "pattern of every one of the 186 C07-range shapes in the thorough tier, where the model's arrays are also compared exactly "
+    "with the implementation's "
+    "(position tags as data). Public tie: every usable formulation x back-end solves "
     "random systems (positive face weights over three decades, zero-mean source) with an exact-arithmetic residual against the "
     "original full system within the stated tolerance, agrees pairwise and with the model's exact rational solution, and keeps "
     "doing so when the cached factorisation is reused.",
-    note="Back-end accuracy (AMG, CG) is a measured quantity: tolerance = configured relative tolerance x ||reduced rhs||; "
+    note="KNOWN FINDING (reported, not suppressed silently): formulation 'flux_reduced' with linear_solver 'amg' / 'cg' constructs and runs but "
+    "returns solutions that do not satisfy the full system once AMG coarsens (>= 100 cells): non-symmetric indefinite saddle-point system. "
+    "Back-end accuracy (AMG, CG) is a measured quantity: tolerance = configured relative tolerance x ||reduced rhs||; "
     "petsc4py is not installed, the ksp back-end is tabulated as unavailable and not exercised.",
     technique="Lean 4 proofs (Finset algebra; decide over generated tables) + differential correspondence + exact-residual oracle",
 )
@@ -409,6 +415,16 @@ def solve_correspondence(ctx, d, usable, shapes, ntrials):
             err = float(np.abs(x - exact).max()) if x.shape == exact.shape else float("inf")
             worst = max(worst, err / tol if tol > 0 else 0.0)
             if not err <= tol:
+                # first ask the property itself: does the returned vector solve the original full system?
+                finite = x.shape == rhs.shape and bool(np.all(np.isfinite(x)))
+                rtol_res = tolerances(w, A, W, rhs, exact, si)
+                res_ok = finite and float(sum(v * v for v in exact_residual(A, x, rhs))) ** 0.5 <= rtol_res
+                if not res_ok:
+                    ctx.fail(f"C08:linear_solve:formulation={fi}:linear_solver={si}:residual-vs-full-system",
+                             f"solution returned by linear_solve[{fi},{si}] does not satisfy the original full system (differs from the exact "
+                             f"rational solution by {err:.3e} > {tol:.3e}) on grid {shape}",
+                             {"kind": "system", "shape": list(shape), "pair": [fi, si], "seed": ctx.seed})
+                    continue
                 n_bad += 1
                 ctx.mark("CORR-BROKEN", {"correspondence": "linear_solve vs exact model", "request": line[:400], "pair": [fi, si],
                                          "err": err, "tol": tol, "kind": kind})
@@ -470,7 +486,9 @@ def one_system(ctx, d, usable, shape, seed_tag, tight=False, fail=True):
                 break
             x = np.asarray(r[0], dtype=float)
             if x.shape != rhs.shape or not np.all(np.isfinite(x)):
-                out.append(dict(sig=f"C08:linear_solve({tag}):malformed", what="solution has wrong shape or non-finite entries", pair=[f, s], step=step))
+                out.append(dict(sig=f"C08:linear_solve:formulation={f}:linear_solver={s}:residual-vs-full-system",
+                                what=f"solution returned by linear_solve[{tag}] has the wrong shape or non-finite entries on grid {shape}, step {step}",
+                                pair=[f, s], step=step))
                 break
             Wm = W if step < 3 else W2
             res = exact_residual(M, x, rhs)
@@ -479,7 +497,7 @@ def one_system(ctx, d, usable, shape, seed_tag, tight=False, fail=True):
             tol = tolerances(w, M, Wm, rhs, x, s, rtol)
             ctx.cov["max_residual_over_tol"][s] = max(ctx.cov["max_residual_over_tol"].get(s, 0.0), (r2 if s != "direct" else rinf) / tol)
             if not (r2 if s != "direct" else rinf) <= tol:
-                out.append(dict(sig=f"C08:linear_solve({tag}):residual" + (":reuse" if reuse else ""),
+                out.append(dict(sig=f"C08:linear_solve:formulation={f}:linear_solver={s}:residual-vs-full-system",
                                 what=f"solution returned by linear_solve[{tag}] does not satisfy the original full system: "
                                      f"|A x - b| = {rinf:.3e} (2-norm {r2:.3e}) > tol {tol:.3e} on grid {shape}, step {step}, reuse_solver={reuse}",
                                 pair=[f, s], step=step, residual=rinf, tol=tol))
@@ -494,7 +512,7 @@ def one_system(ctx, d, usable, shape, seed_tag, tight=False, fail=True):
                 diff = float(np.abs(x - x0).max())
                 ctx.cov["max_pair_diff_over_tol"] = max(ctx.cov["max_pair_diff_over_tol"], diff / ptol)
                 if not diff <= ptol:
-                    out.append(dict(sig=f"C08:linear_solve({tag})!=({p0[0]},{p0[1]})",
+                    out.append(dict(sig=f"C08:linear_solve:formulation={f}:linear_solver={s}:differs-from:{p0[0]},{p0[1]}",
                                     what=f"solutions of the same system differ by {diff:.3e} > {ptol:.3e} between [{tag}] and {p0} on grid {shape}",
                                     pair=[f, s], step=step))
     return out
@@ -571,11 +589,11 @@ def oracle(ctx, d, voc, construct, accept):
         ctx.count(("system", shape), nontrivial=int(np.prod(shape)) > 1)
         if fails:
             # a tolerance miss of an iterative back-end is re-run once with tightened solver options before it counts
-            numeric = [x for x in fails if ":residual" in x["sig"] or "!=" in x["sig"]]
+            numeric = [x for x in fails if ":residual-vs-full-system" in x["sig"] or ":differs-from:" in x["sig"]]
             hard = [x for x in fails if x not in numeric]
             if numeric:
                 again = one_system(ctx, d, usable, shape, None, tight=True)
-                numeric = [x for x in again if ":residual" in x["sig"] or "!=" in x["sig"]]
+                numeric = [x for x in again if ":residual-vs-full-system" in x["sig"] or ":differs-from:" in x["sig"]]
                 ctx.cov["retried_with_tight_options"] = ctx.cov.get("retried_with_tight_options", 0) + 1
             for x in hard + numeric:
                 ctx.fail(x["sig"], x["what"], {"kind": "system", "shape": list(shape), "pair": x.get("pair"), "seed": ctx.seed,
